@@ -99,7 +99,7 @@ def check(chk, sc, out):
                 g = np.asarray(sdb[nme].get_data(span), dtype=float).flatten()
                 e = np.array([float(sc["data"][t - 1][i]) for t in range(p + 1, T + 1)])
                 if not np.allclose(g, e, rtol=1e-8, atol=1e-8):
-                    chk.mismatch("var:simulate:p%d:nx%d" % (p, nx), desc + ": simulate with the estimated residuals gives %s for %s, data %s" % (g, nme, e), payload)
+                    chk.mismatch("var:simulate:order>=2" if p >= 2 else "var:simulate:p1:nx%d" % nx, desc + ": simulate with the estimated residuals gives %s for %s, data %s" % (g, nme, e), payload)
                     return
         except Exception as ex:
             chk.mismatch("var:simulate:p%d:nx%d:raised:%s" % (p, nx, type(ex).__name__), desc + ": simulate raised %r" % (ex,), payload)
@@ -135,22 +135,79 @@ def check(chk, sc, out):
         chk.mismatch(tag + ":moments:raised:" + type(ex).__name__, desc + ": get_eigenvalues/get_mean/get_acov raised %r" % (ex,), payload)
 
 
+def check_pair(chk, a, b):
+    """Two complete data sets of the same shape stacked as two variants: variant k behaves as the singleton model."""
+    (sc1, o1), (sc2, o2) = a, b
+    K, nx, p, T = sc1["K"], sc1["nx"], sc1["p"], len(sc1["data"])
+    payload = {"kind": "ols-pair", "sc1": _plain(sc1), "sc2": _plain(sc2)}
+    tag = "var:2variants:K%d:nx%d:p%d" % (K, nx, p)
+    ynames = ["y%d" % (i + 1) for i in range(K)]
+    xnames = ["x%d" % (j + 1) for j in range(nx)]
+    start = START()
+    db = ir.Databox()
+    for j, n in enumerate(ynames + xnames):
+        db[n] = ir.Series(start=start, values=np.array([[float(r1[j]), float(r2[j])] for r1, r2 in zip(sc1["data"], sc2["data"])], dtype=float))
+    span = ir.Span(start + p, start + T - 1)
+    desc = "two-variant RedVAR(%s, exogenous=%s, order=%d) on data %s | %s" % (ynames, xnames, p, _plain(sc1["data"]), _plain(sc2["data"]))
+    try:
+        kw = {"order": p}
+        if xnames:
+            kw["exogenous_names"] = xnames
+        v = ir.RedVAR(ynames, **kw)
+        odb = v.estimate(db, span, num_variants=2)
+        systems = v.get_system_matrices(unpack_singleton=False)
+        sdb = v.simulate(odb, span)
+    except Exception as ex:
+        chk.mismatch(tag + ":raised:" + type(ex).__name__, desc + ": raised %r" % (ex,), payload)
+        return
+    nlag = K * p
+    for k, (sc, out) in enumerate(((sc1, o1), (sc2, o2))):
+        exp = np.array([[float(Fraction(n, out["den"][i])) for n in out["num"][i]] for i in range(K)])
+        sysm = systems[k]
+        got = np.hstack([np.asarray(sysm.A, dtype=float).reshape(K, nlag), np.asarray(sysm.B, dtype=float).reshape(K, nx) if nx else np.zeros((K, 0)),
+                         np.asarray(sysm.c, dtype=float).reshape(K, 1)])
+        if not np.allclose(got, exp, rtol=1e-8, atol=1e-8):
+            chk.mismatch(tag + ":coefficients", desc + ": coefficients of variant %d are\n%s\nsingleton least squares:\n%s" % (k, got, exp), payload)
+            return
+        if True:
+            for i, nme in enumerate(ynames):
+                g = np.asarray(sdb[nme].get_data(span), dtype=float)[:, k]
+                e = np.array([float(sc["data"][t - 1][i]) for t in range(p + 1, T + 1)])
+                if not np.allclose(g, e, rtol=1e-8, atol=1e-8):
+                    chk.mismatch("var:simulate:order>=2" if p >= 2 else tag + ":simulate", desc + ": simulate with the estimated residuals gives %s for %s in variant %d, data %s" % (g, nme, k, e), payload)
+                    return
+
+
 def run(chk):
     dump = chk.scratch.file("ols.dump")
     r = tlc.must_pass(tlc.run("OlsMC", "OlsMC.cfg", chk.scratch, dump=dump, timeout=1800), "OlsMC")
     chk.add_tlc(r, "OlsMC")
     n = exact = 0
+    groups = {}
     for st in tlaval.parse_dump(dump, want=lambda b: "done = TRUE" in b):
         if st["out"]["ok"] and not st["out"]["check"]:
             raise MachineryError("OlsMC: check false in dump")
         check(chk, st["sc"], st["out"])
         n += 1
         exact += bool(st["sc"]["exact"])
+        sc = st["sc"]
+        if st["out"]["ok"] and sc["icpt"] and not sc["exact"] and not any(nanv(x) for r in sc["data"] for x in r):
+            groups.setdefault((sc["K"], sc["nx"], sc["p"], len(sc["data"])), {})[sc["g"]] = (sc, st["out"])
         if n in (5, 40):
             chk.sample({"scenario": _plain(st["sc"]), "spec": {k: _plain(v) for k, v in st["out"].items() if k in ("ok", "num", "den", "complete")}})
     os.remove(dump)
     if not exact:
         raise MachineryError("OlsMC: no noise-free scenario")
+    pairs = 0
+    for key, d in sorted(groups.items()):
+        if 0 in d and 1 in d:
+            check_pair(chk, d[0], d[1])
+            check_pair(chk, d[1], d[0])
+            pairs += 2
+    if not pairs:
+        raise MachineryError("OlsMC: no two-variant pair")
+    chk.notes["two_variant_pairs"] = pairs
+    n += pairs
     chk.replayed += n
     chk.exhaustive = True
     chk.rule = ("(K, order) in {(1,1), (1,2), (2,1)} x 0-1 exogenous x T in {7,8} x 6 missing-cell patterns (current, lagged, exogenous, first, "
